@@ -69,7 +69,7 @@ func c04core(r *simkit.Run, minSources int, forceFine bool) {
 	var reqs []*c04req
 	var violation string
 
-	base, err := utils.NewExtractor("request.header.Src")
+	base, err := utils.NewExtractor("request.header." + rapid.SampledFrom([]string{"Src", "Src", "src", "SRC", "sRC"}).Draw(rt, "source-header-spelling"))
 	if err != nil {
 		rt.Fatalf("extractor: %v", err)
 	}
